@@ -384,12 +384,23 @@ func (r *Renderer) rawExpr(e N, sep string) {
 		r.sp(o)
 		r.nlOK()
 		r.operand(M(e, "b"), pCond+1, " ")
-	case "not":
-		r.emit("!", sep)
-		r.operand(M(e, "a"), pPrefix, "")
-	case "neg":
-		r.emit("-", sep)
-		r.operand(M(e, "a"), pPrefix, "")
+	case "not", "neg":
+		// A prefix operator takes an operand of binding power > PREFIX; another prefix
+		// expression is fine, but `in` / `not in` (power = PREFIX) is not absorbed and
+		// "--" would be lexed as the decrement token (Grammar!PrefixOperandNeedsParens).
+		if S(e, "k") == "not" {
+			r.emit("!", sep)
+		} else {
+			r.emit("-", sep)
+		}
+		a := M(e, "a")
+		if !r.Full && (S(a, "k") == "in" || (S(e, "k") == "neg" && S(a, "k") == "neg")) {
+			r.tight("(")
+			r.rawExpr(a, "")
+			r.tight(")")
+		} else {
+			r.operand(a, pPrefix, "")
+		}
 	case "tern":
 		r.operand(M(e, "c"), pTernary+1, sep)
 		r.sp("?")
